@@ -11,6 +11,10 @@ CHECKS = {
  'C19': dict(level=MC, tech='TLA+ mechanism model of the three container representations model-checked against the abstract set; trace validation of recorded insert/iterate/has sequences',
    text='E1: TLC explores every insertion sequence (length <= 5, width 4, native capacity 2) of the mechanism model BitintRep (inline single value / bitset / sorted native array with degrade) and checks it refines the abstract set, incl. the iterator protocol. E2: recorded sequences on the six real containers (all singletons, ordered pairs, triples, seeded random up to 40 inserts) are judged by TLC: members = inserted values, iteration = each member exactly once and terminates, has() exact; the decoded representation words and iteration order are additionally compared with the mechanism model at full width (drift report).',
    note='trusted: TLC, the printing-only driver. Ranges as documented in the property (0..30, 0..62, +-31, +-63, +-383, +-447); larger types sampled beyond pairs.', ref='3/C19'),
+
+ 'C20': dict(level=MC, tech='TLA+ contract IsStableSortedPerm (Sort.tla) model-checked for uniqueness/non-vacuity; trace validation of recorded echs_event_sort/echs_instant_sort calls',
+   text='E1: TLC shows for every input of length <= 4 over a 5-key table (all-day, whole-second, .000, .001 of one day, next day) that the contract accepts exactly the stable insertion-sort result and rejects every adjacent transposition, loss and duplication. E2: recorded sorts of the real WikiSort instantiations (all lengths 0..70/300, thresholds up to 4096, 6 order patterns x 5 key alphabets, seeded random) are judged by TLC: permutation, non-decreasing under the instant order (all-day first), ties keep input order.',
+   note='trusted: TLC, Instant.tla ordering (bound to the code by C08), printing-only driver. Memory corruption by the sort shows up as a garbled/crash record which the spec rejects; lengths > 4096 not explored.', ref='3/C20'),
 }
 NA_REASON = 'check not built yet (construction in progress, see DESIGN.md section 10)'
 hooks = {'guard': 'HROPTATYR_ECHSE_VERIF', 'enable': 'no hooks in /repo: checks compile /repo/src as it is (harness/build.sh) and observe through existing seams', 'baseline_off_cmd': 'make -C /repo check', 'source_commits': [], 'add_only': True}
